@@ -1,6 +1,7 @@
 package main
 
 import (
+	"os"
 	"fmt"
 	"go/token"
 	"go/types"
@@ -149,7 +150,21 @@ func (e *Enc) call(f *frame, c *ssa.CallCommon, instr *ssa.Call, pos token.Pos) 
 		// the variable holds one of two known functions: case split
 		return e.callSel(f, sel, args, pos, pack, freshResults)
 	}
-	e.abstract("dynamic-call")
+	if n := c.Value.Type(); isNamedOrAlias(n) {
+		// a callback of a named function type with an assumed contract
+		key := "functype " + typeKey(n)
+		if os.Getenv("LSVC_DEBUG") != "" {
+			fmt.Fprintf(os.Stderr, "functype lookup %q found=%v\n", key, e.L.Contracts.ByKey["|"+key] != nil)
+		}
+		if con := e.L.Contracts.ByKey["|"+key]; con != nil {
+			if sig, ok := n.Underlying().(*types.Signature); ok {
+				r := pack(e.applyContract(f, con, key, args, sig, nil, pos))
+				e.noteTrusted("callback contract: " + key)
+				return r
+			}
+		}
+	}
+	e.abstract("dynamic-call:" + typeKey(c.Value.Type()))
 	e.havocAll("dynamic call")
 	return freshResults("dyn")
 }
@@ -271,6 +286,12 @@ func (e *Enc) applyContract(f *frame, con *Contract, display string, args []Val,
 	env.old = e.cur
 	e.evalLets(env, con)
 	for _, r := range con.Requires {
+		if strings.Contains(r.Text, "held(") && !e.lockCheckOn() {
+			// lock-state preconditions bind callers that are under the lock
+			// discipline themselves (lockcheck); elsewhere the lock state is
+			// not tracked
+			continue
+		}
 		g := e.evalBool(env, r)
 		e.oblige("pre", fmt.Sprintf("%s/pre.%s#%d.%s", top.name, display, n, r.Label), g, pos)
 		e.assume(g)
@@ -298,6 +319,9 @@ func (e *Enc) applyContract(f *frame, con *Contract, display string, args []Val,
 			e.setVar("G|"+g, e.freshT("hvg_"+g, SBV64))
 		}
 	} else {
+		if con.ModHeap {
+			e.havocAll("modifies heap of " + display)
+		}
 		for _, m := range con.Modifies {
 			e.havocLoc(env, m, con)
 		}
@@ -735,6 +759,9 @@ func (e *Enc) appendGeneric(s, t Sl) Val {
 // ------------------------------------------------------------------ intrinsics (stdlib functions with built-in semantics)
 
 func (e *Enc) intrinsic(f *frame, fn *ssa.Function, name string, args []Val, pos token.Pos) (Val, bool) {
+	if e.mutexOp(f, name, args, pos) {
+		return nil, true
+	}
 	switch name {
 	case "bytes.Equal":
 		a, b := args[0].(Sl), args[1].(Sl)
@@ -1015,4 +1042,12 @@ func (e *Enc) callAssert(f *frame, disp string, n int, ca CallAssert, env *Env, 
 	if e.dry == 0 {
 		f.assertsSeen[fmt.Sprintf("%s#%d", disp, n)] = true
 	}
+}
+
+func isNamedOrAlias(t types.Type) bool {
+	switch t.(type) {
+	case *types.Named, *types.Alias:
+		return true
+	}
+	return false
 }
